@@ -126,3 +126,80 @@ def run(repo_copy, workdir, cases, cc="gcc", copts=("-O1",), w2c2_exe=None, tag=
     if len(out) != 2 * n:
         raise RuntimeError(f"constants module answered {len(out)} of {2 * n} (rc={r.returncode}) {r.stderr[-300:]}")
     return [int(x, 16) for x in out], open(os.path.join(d, "k.c")).read()
+
+
+# ----------------------------------------------------------------------------------------------------------------------
+# constants-heavy MULTI-FILE module: every function returns the XOR of the bit patterns of its (many) constants, so ONE
+# damaged literal anywhere in any implementation file changes a checksum (seeded changes C07/6 = C09/5: a static scratch
+# buffer in the f64 formatter, raced on by the worker threads when several implementation files are written).
+
+def xor_module(nf, nc, seed):
+    """-> (wasm bytes, [expected i64 of function k], [[(type, bits)] per function])"""
+    import random
+    rng = random.Random("xor-consts:%s" % seed)
+    leb, vec, sec = opmods.leb, opmods.vec, opmods.sec
+    types = vec([bytes([0x60, 0x00, 0x01, T["i64"]])])
+    funcs = vec([leb(0)] * nf)
+    exports = vec([leb(len(nm)) + nm + b"\x00" + leb(k) for k in range(nf) for nm in [b"c%d" % k]])
+    bodies, expect, consts = [], [], []
+    for k in range(nf):
+        b = bytearray(b"\x00\x42\x00")                     # no locals; i64.const 0
+        acc = 0
+        cs = []
+        for j in range(nc):
+            w = (k + j) % 10
+            if w < 7:                                        # f64 (finite, long digit strings; now and then a special value)
+                if rng.random() < 0.02:
+                    bits = rng.choice([0x7ff8000000000001, 0xfff0000000000000, 0x8000000000000000, 0x0000000000000001, 0x7fefffffffffffff])
+                else:
+                    bits = (rng.getrandbits(1) << 63) | (rng.randrange(1, 2046) << 52) | rng.getrandbits(52)
+                b += b"\x44" + struct.pack("<Q", bits) + b"\xbd\x85"
+                acc ^= bits
+                cs.append(("f64", bits))
+            elif w < 9:                                      # f32
+                bits = (rng.getrandbits(1) << 31) | (rng.randrange(1, 254) << 23) | rng.getrandbits(23)
+                b += b"\x43" + struct.pack("<I", bits) + b"\xbc\xad\x85"
+                acc ^= bits
+                cs.append(("f32", bits))
+            else:                                            # i64
+                bits = rng.getrandbits(rng.randrange(1, 65))
+                b += b"\x42" + sleb(bits, 64) + b"\x85"
+                acc ^= bits
+                cs.append(("i64", bits))
+        b += b"\x0b"
+        bodies.append(leb(len(b)) + bytes(b))
+        expect.append(acc)
+        consts.append(cs)
+    wasm = b"\x00asm\x01\x00\x00\x00" + sec(1, types) + sec(3, funcs) + sec(7, exports) + sec(10, vec(bodies))
+    return wasm, expect, consts
+
+
+def translate_files(workdir, wasm, w2c2_exe, tag, opts, env=None, timeout=300):
+    """real w2c2 `opts` on the module -> (directory, rc, {file name: bytes} of the .c/.h files written)"""
+    d = os.path.join(workdir, "xor_" + tag)
+    if os.path.isdir(d):
+        import shutil
+        shutil.rmtree(d)
+    os.makedirs(d)
+    open(os.path.join(d, "k.wasm"), "wb").write(wasm)
+    p = subprocess.run([w2c2_exe] + list(opts) + ["k.wasm", "k.c"], cwd=d, stdout=subprocess.PIPE, stderr=subprocess.PIPE, timeout=timeout, env=env)
+    files = {f: open(os.path.join(d, f), "rb").read() for f in sorted(os.listdir(d)) if f.endswith(".c") or f.endswith(".h")}
+    return d, p.returncode, files
+
+
+def run_checksums(repo_copy, d, nf, cc="gcc", copts=("-O0",)):
+    """compile EVERY .c file of the translated module in `d` + a driver, run, -> [i64 returned by c<k>] (raises RuntimeError with
+    the compiler's message when the output does not compile)"""
+    calls = "\n".join('  printf("%%llx\\n", (unsigned long long) k_c%d(&inst));' % k for k in range(nf))
+    open(os.path.join(d, "xmain.c"), "w").write("#include <unistd.h>\n" + MAIN.replace("@@CALLS@@", calls))
+    srcs = [os.path.join(d, f) for f in sorted(os.listdir(d)) if f.endswith(".c")]
+    exe = os.path.join(d, "xk")
+    q = subprocess.run([cc] + list(copts) + ["-w", "-I", os.path.join(repo_copy, "w2c2"), "-I", d] + srcs + ["-o", exe, "-lm"],
+                       stdout=subprocess.PIPE, stderr=subprocess.PIPE, text=True, timeout=1800)
+    if q.returncode != 0:
+        raise RuntimeError("the translated constants module does not compile: " + " | ".join(l for l in q.stderr.splitlines() if "error" in l)[:600])
+    r = subprocess.run([exe], stdout=subprocess.PIPE, stderr=subprocess.PIPE, text=True, timeout=300)
+    out = r.stdout.split()
+    if len(out) != nf:
+        raise RuntimeError(f"constants module answered {len(out)} of {nf} (rc={r.returncode}) {r.stderr[-300:]}")
+    return [int(x, 16) for x in out]
